@@ -1,0 +1,110 @@
+//go:build verif
+
+package sm4
+
+// Contracts checked by /verif/gvc (s-expression syntax, see /verif/DESIGN.md).
+// This file contains comments only.
+
+//@ (defmacro x4 (s) (concat (at s 0) (at s 1) (at s 2) (at s 3)))
+//@ (defmacro blk128 (s) (concat (at s 0) (at s 1) (at s 2) (at s 3) (at s 4) (at s 5) (at s 6) (at s 7)
+//@                              (at s 8) (at s 9) (at s 10) (at s 11) (at s 12) (at s 13) (at s 14) (at s 15)))
+//@ (defmacro outside (s n j) (not (and (bvule (off s) j) (bvult (bvsub j (off s)) n))))
+
+//@ (func permuteInitialBlock inline)
+//@ (func permuteFinalBlock inline)
+
+//@ (func p
+//@   (uses "sm4")
+//@   (table "sm4.sbox" j (sm4.S ((_ extract 7 0) j)) "sm4:sbox-values")
+//@   (ensures tau (= result (sm4.tau a))))
+
+//@ (func cryptBlock
+//@   (uses "sm4")
+//@   (requires (= (len subkeys) 32))
+//@   (requires (bvsge (len b) 4))
+//@   (requires (= (len r) 16))
+//@   (requires (bvsge (len src) 16))
+//@   (requires (bvsge (len dst) 16))
+//@   (requires (distinct (obj b) (obj subkeys)))
+//@   (table "sm4.sbox0" j (sm4.T0 ((_ extract 7 0) j)) "sm4:sbox-values")
+//@   (table "sm4.sbox1" j (sm4.T1 ((_ extract 7 0) j)) "sm4:sbox-values")
+//@   (table "sm4.sbox2" j (sm4.T2 ((_ extract 7 0) j)) "sm4:sbox-values")
+//@   (table "sm4.sbox3" j (sm4.T3 ((_ extract 7 0) j)) "sm4:sbox-values")
+//@   (ensures block (= (blk128 dst) (sm4.crypt (old (blk128 src)) (old (row subkeys)) (off subkeys) decrypt)))
+//@   (modifies (cells dst 0 16) (cells b 0 4) (cells r 0 16))
+//@   (loop 1
+//@     (invariant range (and (bvsle 0 i) (bvsle i 8)))
+//@     (invariant state (= (x4 b) (sm4.rounds (old (blk128 src)) (old (row subkeys)) (off subkeys) true (bvmul 4 i))))
+//@     (unfold (sm4.rounds (old (blk128 src)) (old (row subkeys)) (off subkeys) true (bvmul 4 i))
+//@             (sm4.rounds (old (blk128 src)) (old (row subkeys)) (off subkeys) true (bvadd (bvmul 4 i) 1))
+//@             (sm4.rounds (old (blk128 src)) (old (row subkeys)) (off subkeys) true (bvadd (bvmul 4 i) 2))
+//@             (sm4.rounds (old (blk128 src)) (old (row subkeys)) (off subkeys) true (bvadd (bvmul 4 i) 3))
+//@             (sm4.rounds (old (blk128 src)) (old (row subkeys)) (off subkeys) true (bvadd (bvmul 4 i) 4)))
+//@     (decreases (bvsub 8 i)))
+//@   (loop 2
+//@     (invariant range (and (bvsle 0 i) (bvsle i 8)))
+//@     (invariant state (= (x4 b) (sm4.rounds (old (blk128 src)) (old (row subkeys)) (off subkeys) false (bvmul 4 i))))
+//@     (unfold (sm4.rounds (old (blk128 src)) (old (row subkeys)) (off subkeys) false (bvmul 4 i))
+//@             (sm4.rounds (old (blk128 src)) (old (row subkeys)) (off subkeys) false (bvadd (bvmul 4 i) 1))
+//@             (sm4.rounds (old (blk128 src)) (old (row subkeys)) (off subkeys) false (bvadd (bvmul 4 i) 2))
+//@             (sm4.rounds (old (blk128 src)) (old (row subkeys)) (off subkeys) false (bvadd (bvmul 4 i) 3))
+//@             (sm4.rounds (old (blk128 src)) (old (row subkeys)) (off subkeys) false (bvadd (bvmul 4 i) 4)))
+//@     (decreases (bvsub 8 i))))
+
+//@ (func xor
+//@   (ensures nilcase (=> (not (= (len in) (len iv))) (isnil out)))
+//@   (ensures len (=> (= (len in) (len iv)) (and (= (len out) (len in)) (fresh-obj out))))
+//@   (ensures content (=> (= (len in) (len iv))
+//@       (forall ((j B64)) (=> (bvult j (len in)) (= (at out j) (bvxor (at in j) (at iv j)))))))
+//@   (loop 1
+//@     (invariant range (and (bvsle 0 i) (bvsle i (len in))))
+//@     (invariant done (forall ((j B64)) (=> (bvult j i) (= (at out j) (bvxor (at in j) (at iv j))))))
+//@     (decreases (bvsub (len in) i))))
+
+//@ (func generateSubKeys
+//@   (uses "sm4")
+//@   (requires (bvsge (len key) 16))
+//@   (table "sm4.ck" j (sm4.CK j))
+//@   (fresh result)
+//@   (ensures len (and (= (len result) 32) (= (cap result) 32)))
+//@   (ensures keys (forall ((j B64)) (=> (bvult j 32) (= (at result j) (sm4.rk (old (blk128 key)) j)))))
+//@   (loop 1
+//@     (invariant range (and (bvsle 0 i) (bvsle i 32)))
+//@     (invariant state (= (x4 b) (sm4.kstate (old (blk128 key)) i)))
+//@     (invariant keys (forall ((j B64)) (=> (bvult j i) (= (at subkeys j) (sm4.rk (old (blk128 key)) j)))))
+//@     (unfold (sm4.kstate (old (blk128 key)) i) (sm4.kstate (old (blk128 key)) (bvadd i 1)))
+//@     (decreases (bvsub 32 i))))
+
+//@ (defmacro wfcipher (c) (and (not (isnil c))
+//@     (= (len (field c subkeys)) 32) (= (len (field c block1)) 4) (= (len (field c block2)) 16)
+//@     (distinct (obj (field c subkeys)) (obj (field c block1)))))
+
+//@ (func NewCipher
+//@   (uses "sm4")
+//@   (ensures badlen (=> (not (= (len key) 16)) (and (isnil result.0) (not (isnil result.1)))))
+//@   (ensures type (=> (= (len key) 16) (and (isnil result.1) (typeof result.0 "*sm4.Sm4Cipher"))))
+//@   (ensures wf (=> (= (len key) 16) (wfcipher (payload result.0 "*sm4.Sm4Cipher"))))
+//@   (ensures keys (=> (= (len key) 16) (forall ((j B64)) (=> (bvult j 32)
+//@       (= (at (field (payload result.0 "*sm4.Sm4Cipher") subkeys) j) (sm4.rk (old (blk128 key)) j))))))
+//@   (fresh result.0)
+//@   (fresh-field (payload result.0 "*sm4.Sm4Cipher") subkeys)
+//@   (fresh-field (payload result.0 "*sm4.Sm4Cipher") block1)
+//@   (fresh-field (payload result.0 "*sm4.Sm4Cipher") block2))
+
+//@ (func "(*Sm4Cipher).BlockSize" (ensures sixteen (= result 16)))
+
+//@ (func "(*Sm4Cipher).Encrypt"
+//@   (uses "sm4")
+//@   (requires (wfcipher c))
+//@   (requires (bvsge (len src) 16))
+//@   (requires (bvsge (len dst) 16))
+//@   (ensures block (= (blk128 dst) (sm4.crypt (old (blk128 src)) (old (row (field c subkeys))) (off (field c subkeys)) false)))
+//@   (modifies (cells dst 0 16) (cells (field c block1) 0 4) (cells (field c block2) 0 16)))
+
+//@ (func "(*Sm4Cipher).Decrypt"
+//@   (uses "sm4")
+//@   (requires (wfcipher c))
+//@   (requires (bvsge (len src) 16))
+//@   (requires (bvsge (len dst) 16))
+//@   (ensures block (= (blk128 dst) (sm4.crypt (old (blk128 src)) (old (row (field c subkeys))) (off (field c subkeys)) true)))
+//@   (modifies (cells dst 0 16) (cells (field c block1) 0 4) (cells (field c block2) 0 16)))
